@@ -120,3 +120,158 @@ theorem copy_keeps_original {id : Nat} {it : IterSt} {s : St} (hid : s.iters[id]
   simp [withCopy, List.getElem?_append_left hlt, hid]
 
 end Pangaea.C14
+
+/-! ### the converse: whatever the evaluator's list-chain loop computes is described by `SrcListRun` -/
+namespace Pangaea.C14
+open Pangaea.Core Pangaea.C07 Pangaea.C04 Pangaea.C15
+
+/-- **Exactly the specification.** If the list-chain loop ends (with the collected values or an error), the source was
+    stepped, and the property called, exactly as `SrcListRun` describes. With `list_chain_src` the loop and the
+    sequential specification are the same relation. -/
+theorem srcListRun_of_loop {a : Add} {name : String} {args : List Val} {kwargs : List (String × Val)} {env : Nat} :
+    ∀ (f : Nat) (src : Src) (acc : List Val) (s s' : St) (r : R (List Val)),
+      propListLoop f a src name args kwargs env acc s = (r, s') → Ended r → SrcListRun a name args kwargs env src acc s r s' := by
+  intro f
+  induction f with
+  | zero => intro src acc s s' r h he; simp [propListLoop, outOfFuel] at h; obtain ⟨rfl, _⟩ := h; simp [Ended] at he
+  | succ f ih =>
+    intro src acc s s' r h he
+    rw [propListLoop] at h
+    simp only [bindM] at h
+    cases hn : nextElem f src s with
+    | mk rn s1 =>
+      rw [hn] at h
+      cases rn with
+      | ok nx =>
+        cases nx with
+        | none =>
+          simp only [pureM] at h
+          obtain ⟨rfl, rfl⟩ := Prod.mk.inj h
+          exact .done ⟨f, hn⟩
+        | some p =>
+          obtain ⟨x, src'⟩ := p
+          simp only [bindM] at h
+          cases hc : propAdd f a x name args kwargs env s1 with
+          | mk rc s2 =>
+            rw [hc] at h
+            cases rc with
+            | ok v =>
+              have hcall : CallEnds a name args kwargs env x [] s1 (.ok v) s2 := ⟨f, by simpa using hc⟩
+              have hrest : propListLoop f a src' name args kwargs env (keep a acc v) s2 = (r, s') := by
+                cases a <;> cases v <;> simp_all [keep]
+              exact .step ⟨f, hn⟩ hcall (ih src' _ s2 s' r hrest he)
+            | err k m =>
+              simp only at h
+              obtain ⟨rfl, rfl⟩ := Prod.mk.inj h
+              exact .raiseCall ⟨f, hn⟩ ⟨f, by simpa using hc⟩
+            | fuel => simp only at h; obtain ⟨rfl, _⟩ := Prod.mk.inj h; simp [Ended] at he
+            | unsup w => simp only at h; obtain ⟨rfl, _⟩ := Prod.mk.inj h; simp [Ended] at he
+      | err k m =>
+        simp only at h
+        obtain ⟨rfl, rfl⟩ := Prod.mk.inj h
+        exact .raiseNext ⟨f, hn⟩
+      | fuel => simp only at h; obtain ⟨rfl, _⟩ := Prod.mk.inj h; simp [Ended] at he
+      | unsup w => simp only at h; obtain ⟨rfl, _⟩ := Prod.mk.inj h; simp [Ended] at he
+
+end Pangaea.C14
+
+/-! ### reduce chains over any source -/
+namespace Pangaea.C14
+open Pangaea.Core Pangaea.C07 Pangaea.C04 Pangaea.C15
+
+section
+variable (a : Add) (name : String) (args : List Val) (kwargs : List (String × Val)) (env : Nat)
+
+/-- reduce chain over a source: step, call with (accumulator, element), continue with the result -/
+inductive SrcReduceRun : Src → Val → St → R Val → St → Prop
+  | done {src : Src} {acc : Val} {s s1 : St} : NextGives src s none s1 → SrcReduceRun src acc s (.ok acc) s1
+  | step {src src' : Src} {x v acc : Val} {s s1 s2 s3 : St} {res : R Val} :
+      NextGives src s (some (x, src')) s1 → CallEnds a name args kwargs env acc [x] s1 (.ok v) s2 →
+      SrcReduceRun src' v s2 res s3 → SrcReduceRun src acc s res s3
+  | raiseNext {src : Src} {acc : Val} {s s1 : St} {k m : String} :
+      NextRaises src s k m s1 → SrcReduceRun src acc s (.err k m) s1
+  | raiseCall {src src' : Src} {x acc : Val} {s s1 s2 : St} {k m : String} :
+      NextGives src s (some (x, src')) s1 → CallEnds a name args kwargs env acc [x] s1 (.err k m) s2 →
+      SrcReduceRun src acc s (.err k m) s2
+end
+
+theorem srcReduceRun_notFuel {a : Add} {name : String} {args : List Val} {kwargs : List (String × Val)} {env : Nat}
+    {src : Src} {acc : Val} {s s' : St} {res : R Val} (h : SrcReduceRun a name args kwargs env src acc s res s') : res.notFuel := by
+  induction h with
+  | done _ => simp [R.notFuel]
+  | step _ _ _ ih => exact ih
+  | raiseNext _ => simp [R.notFuel]
+  | raiseCall _ _ => simp [R.notFuel]
+
+/-- **A reduce chain folds left over exactly the values the successive `next` steps return.** -/
+theorem reduce_chain_src {a : Add} {name : String} {args : List Val} {kwargs : List (String × Val)} {env : Nat}
+    {src : Src} {acc : Val} {s s' : St} {res : R Val} (h : SrcReduceRun a name args kwargs env src acc s res s') :
+    ∃ fuel, propReduceLoop fuel a src acc name args kwargs env s = (res, s') := by
+  induction h with
+  | @done src acc s s1 hn =>
+    obtain ⟨f, hf⟩ := hn
+    exact ⟨f + 1, by rw [propReduceLoop]; simp [bindM, hf, pureM]⟩
+  | @step src src' x v acc s s1 s2 s3 res hn hc hrest ih =>
+    obtain ⟨e, he⟩ := hn
+    obtain ⟨f, hf⟩ := hc
+    obtain ⟨g, hg⟩ := ih
+    simp only [List.singleton_append] at hf
+    have h0 := nextElem_lift he (by simp [R.notFuel]) (Nat.le_max_left e (max f g))
+    have h1 := propAdd_lift hf (by simp [R.notFuel]) (Nat.le_trans (Nat.le_max_left f g) (Nat.le_max_right e (max f g)))
+    have h2 := propReduceLoop_lift hg (srcReduceRun_notFuel hrest) (Nat.le_trans (Nat.le_max_right f g) (Nat.le_max_right e (max f g)))
+    exact ⟨max e (max f g) + 1, by rw [propReduceLoop]; simp [bindM, h0, h1, h2]⟩
+  | @raiseNext src acc s s1 k m hn =>
+    obtain ⟨f, hf⟩ := hn
+    exact ⟨f + 1, by rw [propReduceLoop]; simp [bindM, hf]⟩
+  | @raiseCall src src' x acc s s1 s2 k m hn hc =>
+    obtain ⟨e, he⟩ := hn
+    obtain ⟨f, hf⟩ := hc
+    simp only [List.singleton_append] at hf
+    have h0 := nextElem_lift he (by simp [R.notFuel]) (Nat.le_max_left e f)
+    have h1 := propAdd_lift hf (by simp [R.notFuel]) (Nat.le_max_right e f)
+    exact ⟨max e f + 1, by rw [propReduceLoop]; simp [bindM, h0, h1]⟩
+
+theorem srcReduceRun_of_loop {a : Add} {name : String} {args : List Val} {kwargs : List (String × Val)} {env : Nat} :
+    ∀ (f : Nat) (src : Src) (acc : Val) (s s' : St) (r : R Val),
+      propReduceLoop f a src acc name args kwargs env s = (r, s') → Ended r → SrcReduceRun a name args kwargs env src acc s r s' := by
+  intro f
+  induction f with
+  | zero => intro src acc s s' r h he; simp [propReduceLoop, outOfFuel] at h; obtain ⟨rfl, _⟩ := h; simp [Ended] at he
+  | succ f ih =>
+    intro src acc s s' r h he
+    rw [propReduceLoop] at h
+    simp only [bindM] at h
+    cases hn : nextElem f src s with
+    | mk rn s1 =>
+      rw [hn] at h
+      cases rn with
+      | ok nx =>
+        cases nx with
+        | none =>
+          simp only [pureM] at h
+          obtain ⟨rfl, rfl⟩ := Prod.mk.inj h
+          exact .done ⟨f, hn⟩
+        | some p =>
+          obtain ⟨x, src'⟩ := p
+          simp only [bindM] at h
+          cases hc : propAdd f a acc name (x :: args) kwargs env s1 with
+          | mk rc s2 =>
+            rw [hc] at h
+            cases rc with
+            | ok v =>
+              simp only at h
+              exact .step ⟨f, hn⟩ ⟨f, by simpa using hc⟩ (ih src' v s2 s' r h he)
+            | err k m =>
+              simp only at h
+              obtain ⟨rfl, rfl⟩ := Prod.mk.inj h
+              exact .raiseCall ⟨f, hn⟩ ⟨f, by simpa using hc⟩
+            | fuel => simp only at h; obtain ⟨rfl, _⟩ := Prod.mk.inj h; simp [Ended] at he
+            | unsup w => simp only at h; obtain ⟨rfl, _⟩ := Prod.mk.inj h; simp [Ended] at he
+      | err k m =>
+        simp only at h
+        obtain ⟨rfl, rfl⟩ := Prod.mk.inj h
+        exact .raiseNext ⟨f, hn⟩
+      | fuel => simp only at h; obtain ⟨rfl, _⟩ := Prod.mk.inj h; simp [Ended] at he
+      | unsup w => simp only at h; obtain ⟨rfl, _⟩ := Prod.mk.inj h; simp [Ended] at he
+
+end Pangaea.C14
